@@ -40,6 +40,10 @@ func newErrTypeNotMatchError(src, dst reflect.Type, field string) error {
 }
 
 // newErrMultiPointer
+func newErrRecursiveType(typ reflect.Type) error {
+	return fmt.Errorf("ekit: copier 不支持递归定义的类型 %v", typ)
+}
+
 func newErrMultiPointer(field string) error {
 	return fmt.Errorf("ekit: 字段 %s 是多级指针", field)
 }
